@@ -7,4 +7,4 @@ trap "rm -rf $D" EXIT
 rsync -a --exclude .git /repo/ $D/
 if [ -f "$1" ]; then (cd $D && patch -p1 -s < "$1"); else (cd $D && /venv/bin/python -c "$1"); fi
 shift; shift
-cd /verif && VERIF_REPO=$D "$@"
+cd /verif && VERIF_REPO=$D VERIF_EVIDENCE_DIR=$D/_evidence "$@"
